@@ -121,9 +121,11 @@ func init() {
 			{Scenario: "core-forge", Stratum: "", Quick: 1500, Thorough: 60000, PerJob: 16},
 			{Scenario: "core", Stratum: "", Quick: 600, Thorough: 20000, PerJob: 32},
 			{Scenario: "xfer", Stratum: "", Quick: 300, Thorough: 8000, PerJob: 8},
+			{Scenario: "fec-fuzz", Stratum: "", Quick: 600, Thorough: 20000, PerJob: 16},
+			{Scenario: "forge-sess", Stratum: "", Quick: 300, Thorough: 10000, PerJob: 8},
 		},
-		QuickBudget: 60 * time.Second, ThoroughBudget: 25 * time.Minute,
-		Rule: "evaluations = seeded simulated runs, each feeding hundreds to thousands of generated datagrams (noise; truncations; structurally valid segments with every header field forged: cmd, frg, wnd, ts, sn, una around/outside/far from the windows and across the wrap, len lying about the remainder, lengths up to 64 KiB for the raw core) into a live core with outstanding data of its own; a library panic on any goroutine, occupancy beyond the C04 limits, or pooled buffers held beyond the windows is a violation. Non-trivial = at least one forgery was accepted by the core; distinct = distinct event-log hashes",
+		QuickBudget: 75 * time.Second, ThoroughBudget: 30 * time.Minute,
+		Rule: "evaluations = seeded simulated runs, each feeding hundreds to thousands of generated datagrams (noise; truncations; structurally valid segments with every header field forged: cmd, frg, wnd, ts, sn, una around/outside/far from the windows and across the wrap, len lying about the remainder, lengths up to 64 KiB for the raw core) into a live core with outstanding data of its own; a library panic on any goroutine, occupancy beyond the C04 limits, or pooled buffers held beyond the windows is a violation. Scenario fec-fuzz does the same to the FEC decoder alone (noise, flipped types, forged and wrapping sequence ids, lying size fields, parity of unsent groups, forged-period runs that drive the auto-tuner; at most 16 shard sets and 16*256 packets may be held); scenario forge-sess opens genuine datagrams of a live session pair with the harness's cipher, edits one FEC or KCP header field and re-seals them correctly, so that the forgery passes the integrity gate of the real session / listener path. Non-trivial = at least one forgery was accepted by the core; distinct = distinct event-log hashes",
 		Real: realCore, Stub: stubCore,
 		Assumptions: append([]string{"this is datagram-content fault injection inside the simulation, as strong as its mutation grammar; it is not coverage-guided fuzzing", "'allocate without bound' is decided by counting pooled buffers held (sanitizer) and the pending-acknowledgement list against window-derived limits, not by measuring the Go heap"}, assumeCommon...),
 		WantProbes:  []string{"forged-datagram", "forgery-accepted", "forgery-rejected", "rcv-queue-full"},
